@@ -211,7 +211,8 @@ def wild_newton_step(case, out):
     if out is not None:     # the judged output is a converged point: intermediate iterates must not dwarf it either
         wf = np.abs(np.asarray(out.w, float))
         ref += float(np.max(wf)) if np.all(np.isfinite(wf)) else 0.
-    for mi, mp in ((1, 1), (1, 2), (2, 1), (3, 1)):
+    own = int(case["solver"].get("max_pn_iter", 1))
+    for mi, mp in ((1, 1), (1, 2), (2, 1), (3, 1), (1, own), (2, own), (3, own)):
         c = json.loads(json.dumps(case))
         c["solver"]["max_iter"], c["solver"]["max_pn_iter"] = mi, mp
         o = P.run(c)
